@@ -23,7 +23,10 @@ SHAPES["splitfail"] = dict(nodes={"s": (1, []), "d": (2, ["s"]), "i1": (3, []), 
 SHAPES["dupref"] = dict(nodes={"a": (1, []), "c": (2, []), "d": (3, ["c"]), "b": (4, ["d"]), "j": (5, ["a", "b"])},
                         make=lambda x, fails: D.DupRef(x=x),
                         outputs=lambda x: {"j": (x + 1) * 10000 + (x + 1) * 100 + (x + 2 + 3 + 4) + 5})
-FAILABLE = {"indep": ["f", "k"], "forkjoin": ["p", "q"], "splitfail": ["s"]}
+SHAPES["twobranch"] = dict(nodes={"a": (1, []), "c": (2, []), "b": (3, ["a"]), "d": (4, ["c"]), "x": (5, ["b"]), "y": (6, ["d"])},
+                           make=lambda x, fails: D.TwoBranches(x=x, a_fails="a" in fails),
+                           outputs=lambda x: {"x": x + 1 + 3 + 5, "y": x + 2 + 4 + 6})
+FAILABLE = {"indep": ["f", "k"], "forkjoin": ["p", "q"], "splitfail": ["s"], "twobranch": ["a"]}
 
 
 def tag_of(ev):
@@ -79,19 +82,24 @@ def run_shape(shape, fails, choices, max_concurrent=None, x=1, warm_rerun=False,
     return res, err, ev, stats
 
 
-def c14(shape, fail_bits, choices, lagging=False):
+def c14(shape, fail_bits, choices, lagging=False, max_concurrent=None):
     spec = SHAPES[shape]
     fails = {n for k, n in enumerate(FAILABLE[shape]) if (fail_bits >> k) & 1}
-    res, err, ev, stats = run_shape(shape, fails, choices, lagging=lagging)
+    res, err, ev, stats = run_shape(shape, fails, choices, max_concurrent, lagging=lagging)
     T.reach()
     nodes = spec["nodes"]
     tags = {tag_of(b) for b in R.LOG if b[0] in ("Node", "Join")}
     tag2name = {t: n for n, (t, _) in nodes.items()}
     executed = {tag2name[t] for t in tags}
     should = {n for n in nodes if not (ancestors(nodes, n) & fails)}
-    desc = "%s with failing %s, schedule %s" % (shape, sorted(fails), list(choices))
+    desc = "%s with failing %s, schedule %s%s" % (shape, sorted(fails), list(choices), "" if max_concurrent is None else ", max_concurrent %s" % max_concurrent)
     if isinstance(err, S.BudgetExceeded):
         return "%s: no progress (%s)" % (desc, err)
+    if shape == "splitfail":
+        # the elements of the split node are independent of each other: every one of them is executed
+        elems = sorted(b[1] for b in R.LOG if b[0] == "Node" and tag_of(b) == 1)
+        if elems != [5, 6, 7]:
+            return "%s: elements of the split node executed: %s, expected [5, 6, 7] (one failing element must not stop its siblings)" % (desc, elems)
     if should - executed:
         return "%s: independent job(s) %s never executed (executed: %s)" % (desc, sorted(should - executed), sorted(executed))
     if executed - should:
